@@ -11,6 +11,8 @@ import (
 	"fmt"
 	"runtime"
 	"sort"
+	"sync"
+	"sync/atomic"
 	"testing"
 	"time"
 
@@ -30,6 +32,7 @@ type vcBehaviour struct {
 	Connected bool     `json:"connected"`
 	Free      bool     `json:"free"`
 	Census    bool     `json:"census"` // sequential GracefulClose of both peers with a goroutine census
+	Worker    string   `json:"worker"` // "" | "ops" | "dcmsg": a goroutine of the connection kept busy by the application
 }
 
 func TestVerifPcClose(t *testing.T) {
@@ -72,9 +75,10 @@ func vcRun(t *testing.T, tr *vkTrace, bh vcBehaviour) bool { //nolint:cyclop
 	settle()
 	before := runtime.NumGoroutine()
 	var a, b *PeerConnection
+	var pair vcPair
 	if bh.Connected || bh.Census {
-		p := vcConnectedPair(t)
-		a, b = p[0], p[1]
+		pair = vcConnectedPair(t)
+		a, b = pair.a, pair.b
 	} else {
 		var err error
 		if a, b, err = newPair(); err != nil {
@@ -108,6 +112,42 @@ func vcRun(t *testing.T, tr *vkTrace, bh vcBehaviour) bool { //nolint:cyclop
 		cs, _ := args[0].(PeerConnectionState)
 		tr.Emit(vkM{"ev": "conn", "t": bh.ID, "to": cs.String(), "ordered": ordered, "sig": "conn(" + cs.String() + ")"})
 	}
+	// a goroutine of the connection that the application keeps busy: an operation of the queue that
+	// does not return, or the read loop of a data channel inside its OnMessage handler
+	var running atomic.Int64
+	hold := make(chan struct{})
+	var releaseOnce sync.Once
+	release := func() { releaseOnce.Do(func() { close(hold) }) }
+	defer release()
+	worker := bh.Worker
+	if worker == "dcmsg" && pair.bdc == nil {
+		worker = "ops"
+	}
+	if worker != "" {
+		entered := make(chan struct{})
+		handler := func() {
+			running.Add(1)
+			close(entered)
+			<-hold
+			running.Add(-1)
+		}
+		if worker == "ops" {
+			a.ops.Enqueue(handler)
+		} else {
+			var once sync.Once
+			pair.adc.OnMessage(func(DataChannelMessage) { once.Do(handler) })
+			if err := pair.bdc.SendText("keep the read loop busy"); err != nil {
+				t.Fatal(err)
+			}
+		}
+		select {
+		case <-entered:
+		case <-time.After(10 * time.Second):
+			buf := make([]byte, 1<<20)
+			buf = buf[:runtime.Stack(buf, true)]
+			t.Fatalf("behaviour %d: the %s worker did not start\n%s", bh.ID, worker, buf)
+		}
+	}
 	returned := map[string]bool{}
 	start := func(name string) {
 		gates.Go(name, func() {
@@ -116,6 +156,10 @@ func vcRun(t *testing.T, tr *vkTrace, bh vcBehaviour) bool { //nolint:cyclop
 			} else {
 				_ = a.Close()
 			}
+			// still inside the closer's goroutine: what the caller finds when the call returns
+			tr.Emit(vkM{"ev": "ret", "t": bh.ID, "to": "", "ordered": ordered, "who": name, "graceful": isGraceful[name],
+				"busy": int(running.Load()), "worker": worker,
+				"sig": fmt.Sprintf("ret(graceful=%v,worker=%s)", isGraceful[name], worker)})
 		})
 	}
 	startU := func() {
@@ -137,6 +181,10 @@ func vcRun(t *testing.T, tr *vkTrace, bh vcBehaviour) bool { //nolint:cyclop
 			if !driven {
 				break
 			}
+			if st.Proc == "W" {
+				release() // wRelease: the application lets the handler return
+				continue
+			}
 			if !started[st.Proc] {
 				started[st.Proc] = true
 				if st.Proc == "U" {
@@ -156,7 +204,7 @@ func vcRun(t *testing.T, tr *vkTrace, bh vcBehaviour) bool { //nolint:cyclop
 				continue
 			}
 			switch st.Label {
-			case "kWaitG", "kWaitC", "kRet":
+			case "kWaitG", "kWaitC", "kRet", "kGrace1", "kGrace2":
 				// blocked in / returning from a wait: nothing held at a gate
 				if p := gates.Poll(st.Proc); p != "" && !vkEnded(p) {
 					gates.Step(st.Proc)
@@ -178,6 +226,10 @@ func vcRun(t *testing.T, tr *vkTrace, bh vcBehaviour) bool { //nolint:cyclop
 		}
 		gates.ReleaseAll()
 	}
+	if bh.Free && worker != "" {
+		time.Sleep(time.Duration(vkRand(int64(bh.ID)+5).Intn(3000)) * time.Microsecond)
+	}
+	release()
 	// every call must return
 	names := []string{}
 	for _, n := range append(append([]string{}, bh.Closers...), "U") {
@@ -247,7 +299,12 @@ func vcRun(t *testing.T, tr *vkTrace, bh vcBehaviour) bool { //nolint:cyclop
 	return driven
 }
 
-func vcConnectedPair(t *testing.T) [2]*PeerConnection {
+type vcPair struct {
+	a, b     *PeerConnection
+	adc, bdc *DataChannel // the two ends of the bootstrap channel
+}
+
+func vcConnectedPair(t *testing.T) vcPair {
 	t.Helper()
 	a, b, err := newPair()
 	if err != nil {
@@ -259,13 +316,25 @@ func vcConnectedPair(t *testing.T) [2]*PeerConnection {
 	}
 	opened := make(chan struct{})
 	first.OnOpen(func() { close(opened) })
+	remote := make(chan *DataChannel, 1)
+	b.OnDataChannel(func(d *DataChannel) {
+		if d.Label() == "bootstrap" { // signalPair opens a channel of its own as well
+			d.OnOpen(func() { remote <- d })
+		}
+	})
 	if err = signalPair(a, b); err != nil {
 		t.Fatal(err)
 	}
+	p := vcPair{a: a, b: b, adc: first}
 	select {
 	case <-opened:
 	case <-time.After(10 * time.Second):
 		t.Fatal("pair did not connect")
 	}
-	return [2]*PeerConnection{a, b}
+	select {
+	case p.bdc = <-remote:
+	case <-time.After(10 * time.Second):
+		t.Fatal("remote end of the bootstrap channel did not open")
+	}
+	return p
 }
